@@ -59,17 +59,18 @@ structure CChunk where
   c : Chunk
 deriving Repr, DecidableEq, Inhabited
 
-/-- `Chunk.__init__` as it is now: the declared dtype is compared (titles stripped) with the dtype
-of the data, then the range checks of `mkChunk` (start ≥ 0, start ≤ end, first row not before
-`start`, no end among the LAST 500 rows beyond `end`) and the run annotations.
-Every failure for array data is a `ValueError`, so the order of those tests is not observable.
-Data that is not an array: the `ValueError` message formats the chunk, whose `__repr__` needs
-`data.nbytes` unless the duration is zero — so what escapes is an `AttributeError` (`other`). -/
+/-- what escapes when the data is not a numpy array: the `ValueError` message formats the chunk,
+whose `__repr__` needs `data.nbytes` unless the duration is zero — so it is an `AttributeError`
+(`other`) for a chunk of non-zero duration; the subruns setter (a `ValueError`) comes first -/
 def notArrayError (start stop : Int) (subruns : Option Runs) : Err :=
   match subruns with
   | some s => if runsOverlap (sortRuns s) then .valueError else (if stop - start = 0 then .valueError else .other)
   | none => if stop - start = 0 then .valueError else .other
 
+/-- `Chunk.__init__` as it is now: the declared dtype is compared (titles stripped) with the dtype
+of the data, then the range checks of `mkChunk` (start ≥ 0, start ≤ end, first row not before
+`start`, no end among the LAST 500 rows beyond `end`) and the run annotations.
+Every failure for array data is a `ValueError`, so the order of those tests is not observable. -/
 def chunkInit (dataType kind : String) (runId : Option String) (declared : RDtype) (start stop : Int)
     (data : DataArg) (subruns superrun : Option Runs) (target : Nat) : Except Err CChunk :=
   match data with
